@@ -5,7 +5,7 @@ only concrete subclass), so `self` is typed Ref[ContactHandler] throughout.
 
 CH = 'Ref[ContactHandler]'
 
-TIMER_MODS = ['ghost.src_armed', 'ghost.src_delay', 'ghost.src_cb']
+TIMER_MODS = ['ghost.src_armed', 'ghost.src_delay', 'ghost.src_cb', 'ghost.idle_resets']
 AUTO_MODS = ['ghost.trace', 'ghost.enc_stream', 'ghost.ch_sent', 'ghost.si_sent', 'ghost.term_sent',
              'ghost.cur_xid', 'ghost.started']
 SEND_READY_MODS = ['Connection._Connection__avail_tx_tls_id', 'Connection._Connection__avail_tx_tls_pend',
@@ -149,7 +149,9 @@ FUNCS = {
     'tcpcl.session:Messenger._idle_reset': dict(
         self=CH, props=['C14'],
         modifies=['Messenger._idle_timer_id'] + TIMER_MODS,
-        ensures=[('armed', 'idle_armed(self)')] + reset_exact('_idle_timer_id', '_idle_time', '_idle_timeout'),
+        ghost_exit=['ghost.idle_resets = ghost.idle_resets + 1'],
+        ensures=[('armed', 'idle_armed(self)'), ('counted', 'ghost.idle_resets == old(ghost.idle_resets) + 1')] +
+        reset_exact('_idle_timer_id', '_idle_time', '_idle_timeout'),
     ),
     # the single emission point: every protocol event goes through here
     'tcpcl.session:Messenger.send_message': dict(
